@@ -92,6 +92,19 @@ Theorem C12_fsck_wellformed : forall s kids, repr s (RDir 0 kids) = true -> (hei
   disjoint_records (entry_offsets (flatten s 0 (RDir 0 kids))) -> fsck s = Ok tt.
 Proof. exact ResourcesSafety.fsck_wellformed. Qed.
 Print Assumptions C12_fsck_wellformed.
+
+(* the depth limit of the consistency check, the resource type ids and the predefined '#TYPE' names of the model are
+   the constants and the RSRC_TYPES table of src/resources/mod.rs and src/image.rs, regenerated on every run *)
+From PV.gen Require Consts.
+From PV.Proofs Require ConstsResources.
+Theorem C12_constants_match_source :
+  N.of_nat FSCK_DEPTH = Consts.K_FSCK_MAX_DEPTH /\
+  (forall id, rsrc_type id = match nth_error Consts.K_RSRC_TYPES (N.to_nat id) with Some (Some s) => Some s | _ => None end) /\
+  RT_CURSOR = Consts.K_RT_CURSOR /\ RT_ICON = Consts.K_RT_ICON /\ RT_GROUP_CURSOR = Consts.K_RT_GROUP_CURSOR /\
+  RT_GROUP_ICON = Consts.K_RT_GROUP_ICON /\ RT_VERSION = Consts.K_RT_VERSION /\ RT_MANIFEST = Consts.K_RT_MANIFEST.
+Proof. exact ConstsResources.resources_consts. Qed.
+Print Assumptions C12_constants_match_source.
+
 Example C12_wellformed_nonvacuous :
   entry_offsets (flatten ex3_sec 0 ex3_tree) = [16; 40; 64] /\ disjoint_records (entry_offsets (flatten ex3_sec 0 ex3_tree)) /\
   fsck ex3_sec = Ok tt.
